@@ -62,6 +62,13 @@ DefaultRoundTrip(r) ==
   /\ r.decCls = r.cls
   /\ r.decGood /\ ~r.decThrew /\ r.consumed = r.emitted
 
+(* C17, file level — the same through the File API (restore points on or off, stored or deflated): exactly this one
+   object comes back, as the same class under the same code *)
+DefaultThroughFile(r) ==
+  /\ ClassOf(r.ctorCode) = r.cls
+  /\ r.delivered = 1
+  /\ r.backCls = r.cls /\ r.backCode = r.ctorCode
+
 (* C02 — an image from a Vector-produced log: the registry knows its class, the padding rule explains its
    length, decoding is complete, and encoding the decoded object reproduces the image and every derived image
    that keeps its shape *)
@@ -87,6 +94,7 @@ RecordOK(r) == CASE Which = "C03" -> FramedAsDeclared(r)
                  [] Which = "C01" -> RoundTrip(r)
                  [] Which = "C17" -> FactoryConsistent(r)
                  [] Which = "C17D" -> DefaultRoundTrip(r)
+                 [] Which = "C17F" -> DefaultThroughFile(r)
 
 Init == i = 1
 Next == i < Len(Records) /\ i' = i + 1
